@@ -261,9 +261,11 @@ pub fn response_wire(id: u8, class: u8, auth: Auth) -> Vec<u8> {
         }
         6 => {
             err(&mut b, 300, "Try Alternate");
-            wire::append_raw(&mut b, 0x8023, &[0, 1, 0x0D, 0x96, 192, 0, 2, 7]);
+            // ALTERNATE-SERVER names peer 4 of the universe (10.0.0.9:2000), so that its validation state is observed
+            wire::append_raw(&mut b, 0x8023, &[0, 1, 0x07, 0xD0, 10, 0, 0, 9]);
         }
-        7 => wire::append_raw(&mut b, 0x0020, &[0, 1, 0x21 ^ 0x12, 0x12 ^ 0x34, 0x21 ^ 10, 0x12, 0xA4, 0x42 ^ 9]),
+        // XOR-MAPPED-ADDRESS names peer 3 of the universe (10.0.0.2:2001)
+        7 => wire::append_raw(&mut b, 0x0020, &[0, 1, 0x21 ^ 0x07, 0x12 ^ 0xD1, 0x21 ^ 10, 0x12, 0xA4, 0x42 ^ 2]),
         // 9 / 10: a success / an error response carrying comprehension-required attributes the library
         // has no name for (SOURCE-ADDRESS, CHANGED-ADDRESS, LIFETIME, XOR-RELAYED-ADDRESS, 0x7F00)
         9 | 10 => {
